@@ -17,16 +17,18 @@ def showEvent : Event → Option String
   | .tmoClose i aware => if aware then some s!"to{i}" else none
   | .otherClose i code aware => if aware then some s!"co{i}:{code}" else none
   | .suspended i => some s!"su{i}"
+  | .completed i => some s!"co{i}:0"
 
 /-- ids closed by the library in this operation whose client is still listening: it sees EOF
     (`shutdown (SHUT_WR)` in MHD_connection_mark_closed_) -/
-def eofs (d : Daemon) (evs : List Event) : List String :=
-  (List.range maxConns).filterMap fun i =>
-    if evs.any (fun e => match e with
+def eofs (d : Daemon) (evs : List Event) (wrote : List Id := []) : List String :=
+  (List.range maxConns).flatMap fun i =>
+    (if wrote.contains i && !(d.c i).peerClosed then [s!"wire{i}"] else []) ++
+    (if evs.any (fun e => match e with
         | .tmoClose j _ => j == i
         | .otherClose j _ _ => j == i
         | _ => false) && !(d.c i).peerClosed
-    then some s!"eof{i}" else none
+    then [s!"eof{i}"] else [])
 
 def showConn (d : Daemon) (i : Id) : Option String :=
   if d.conns.contains i || d.susp.contains i || d.cleanup.contains i then
@@ -36,9 +38,11 @@ def showConn (d : Daemon) (i : Id) : Option String :=
       ++ (if c.buf > 0 && !c.closed && c.kind == Kind.post then s!"b{c.buf}" else ""))
   else none
 
-def report (v : Variant) (echo : String) (d : Daemon) (evs : List Event) (extra : List String := []) : String :=
+def report (v : Variant) (echo : String) (d : Daemon) (evs : List Event) (extra : List String := [])
+    (wrote fin : List Id := []) : String :=
   if d.fault then "fault list-corruption" else
-  let evl := extra ++ evs.filterMap showEvent ++ eofs d evs
+  let evl := extra ++ evs.filterMap showEvent ++ wrote.map (fun i => s!"w{i}") ++ fin.map (fun i => s!"fin{i}")
+    ++ eofs d evs wrote
   let h := match hint v d with
     | some n => toString n
     | none => "none"
@@ -67,6 +71,16 @@ def applyCfg (c : Cfg) (ws : List String) : Option Cfg :=
         | none => none
       | _ => none) (some c)
 
+/-- `w=1,2` -> [1,2] -/
+def idList (pre : String) (w : String) : Option (List Id) :=
+  if w.startsWith pre then
+    let body := (w.drop pre.length).toString
+    if body == "" then some [] else
+    (body.splitOn ",").foldr (fun x acc => match x.toNat?, acc with
+      | some n, some l => some (n :: l)
+      | _, _ => none) (some [])
+  else none
+
 def parseOp (ws : List String) : Option Op :=
   match ws with
   | ["arrive", a] => a.toNat?.map Op.arrive
@@ -85,6 +99,19 @@ def parseOp (ws : List String) : Option Op :=
   | ["susp", a] => a.toNat?.map Op.susp
   | ["resume", a] => a.toNat?.map Op.resume
   | ["round"] => some Op.round
+  | ["round", a] => match idList "w=" a, idList "f=" a with
+    | some ws, _ => some (Op.roundw ws [])
+    | _, some fs => some (Op.roundw [] fs)
+    | _, _ => none
+  | ["round", a, b] => match idList "w=" a, idList "f=" b with
+    | some ws, some fs => some (Op.roundw ws fs)
+    | _, _ => none
+  | ["get", a, k] => match a.toNat? with
+    | some i => if k == "e" then some (Op.get i true) else if ["n", "h", "c", "f"].contains k then some (Op.get i false) else none
+    | none => none
+  | ["allow", a, b] => match a.toNat?, b.toNat? with
+    | some i, some n => if 1 ≤ n ∧ n ≤ 4000 then some (Op.allow i) else none
+    | _, _ => none
   | _ => none
 
 /-- white-box op `conv <c> <x> <max>`: the hint with connection `c` poked to timeout `x` ms / stamp = now,
@@ -136,7 +163,15 @@ def stepLine (s : DSt) (ws : List String) : DSt × List String :=
           let extra := match o with
             | .setTimeout i _ => [s!"get{(d'.c i).tmo / Mhd.Gen.Tmo.msPerSec}"]
             | _ => []
-          ({ s with d := some d' }, [report s.v (" ".intercalate ws) d' evs extra])
+          -- sends with progress / replies completed in this round: what the parameters say, for the
+          -- connections that were replying and alive when the round began
+          let live := fun (i : Id) => !(d.c i).closed && d.conns.contains i &&
+            ((d.c i).replying || ((d.c i).unread && (d.c i).kind == Kind.get && !(d.c i).suspended))
+          let (wrote, fin) := match o with
+            | .roundw wl fl => ((List.range maxConns).filter fun i => wl.contains i && live i,
+                               (List.range maxConns).filter fun i => fl.contains i && live i)
+            | _ => ([], [])
+          ({ s with d := some d' }, [report s.v (" ".intercalate ws) d' evs extra wrote fin])
 
 /-- `drv_tmo` models the tree under test (`Variant.current`, regenerated);
     `drv_tmo asis` / `drv_tmo fixed` force the pinned / the repaired behaviour (used by the
